@@ -453,7 +453,7 @@ def ctiCore (N : Nat) : Core α where
     pure (q ++ [v])
   out q :=
     let a := ctiSums q
-    let wl : α := nat q.length
+    let wl : α := nat N
     if nat 0 < wl * a.sxx - sq a.sx && nat 0 < wl * a.syy - sq a.sy then do
       let o := (wl * a.sxy - a.sx * a.sy) / Transc.sqrt ((wl * a.sxx - sq a.sx) * (wl * a.syy - sq a.sy))
       assertFinite o
